@@ -344,3 +344,6 @@ func (s *stmt) QueryContext(ctx context.Context, args []driver.NamedValue) (driv
 	})
 	return r, err
 }
+
+// Now is the wrapper's monotonic clock (ns since process start); monitors use the same clock.
+func Now() int64 { return now() }
